@@ -25,9 +25,18 @@ theorem C18_frame (units : List (String × String)) (m m' : Msg) (h : applyUnits
 /-- a field whose quantity has no recognised preference is untouched (no quantity, quantity without a
 preference, unrecognised unit, quantity without conversions) -/
 theorem C18_untouched (units : List (String × String)) (f : Field)
-    (h : ∀ pq u, f.fmeta.pq = some pq → assocGet pq units = some u → conversion pq u = none) :
+    (h : ∀ pq u, f.fmeta.pq = some pq → assocGet pq units = some u → conversion pq u f.fmeta.unit = none) :
     convertField units f = some f :=
   convertField_untouched units f h
+
+/-- an angle the database already gives in degrees is left alone whatever the ANGLE preference -/
+theorem C18_degrees_untouched (units : List (String × String)) (f : Field)
+    (hq : f.fmeta.pq = some "ANGLE") (hu : f.fmeta.unit = some "deg") : convertField units f = some f := by
+  apply C18_untouched
+  intro pq u h _
+  rw [hq] at h
+  cases h
+  simp [conversion, hu]
 
 /-- absent values stay absent (the unit label is still rewritten) -/
 theorem C18_absent (units : List (String × String)) (f f' : Field) (hv : f.value = .none)
